@@ -22,7 +22,9 @@ RUST_RESERVED = {'Self', 'Option', 'Some', 'None', 'Ok', 'Err', 'Result', 'Box',
                  'ToString', 'ToOwned', 'AsRef', 'AsMut', 'Extend', 'Fn', 'FnMut', 'FnOnce', 'Unpin',
                  'DoubleEndedIterator', 'ExactSizeIterator', 'TryInto', 'FromIterator'}
 PAYLOAD_TYPES = ['()', 'u32', 'crate::pay::P', 'crate::pay::Q<crate::pay::P, ()>', 'crate::pay::Q<u32, crate::pay::Q<(), crate::pay::P>>',
+                 'crate::pay::R<u32, (), crate::pay::P>', 'crate::pay::R4<(), u32, crate::pay::P, crate::pay::Q<u32, ()>>',
                  'pay::P', 'super::pay::P']
+N_BEHAVIOUR_TYPES = 7      # the first N are the ones the compiled-parser harness can construct
 # code points picked by their LOW BYTE and by UTF-8 length boundaries: a `char as u8`, a byte-wise
 # comparison or a byte/char length mix-up shows only on these (each special ASCII byte b gives
 # U+01bb, U+4Ebb and U+1F3bb); plus the first/last code point of every UTF-8 length
@@ -89,7 +91,7 @@ def pick_names(rng, pool, n, avoid=()):
 
 def gen_grammar(rng, adversarial=0.3, max_nts=6, max_terms=5, allow_empty_terminals=True,
                 behaviour=False, bias_lalr=0.6, motifs=0.45, wide=0.05, payload_like_nt=0.0, empty_helper_enum=0.0,
-                name_relations=0.15, many_terminals=0.08, min_sizes=False):
+                name_relations=0.15, many_terminals=0.08, min_sizes=False, letterless=0.1):
     """Random grammar.  behaviour=True: payload types come from the fixed menu the
     compiled-parser harness knows how to build, and every type derives Debug."""
     g = Grammar()
@@ -103,9 +105,9 @@ def gen_grammar(rng, adversarial=0.3, max_nts=6, max_terms=5, allow_empty_termin
         nterm = rng.randint(11, 24)
     use_adv = rng.random() < adversarial
     nt_pool = (HELPER_NAMES + RESERVED_CASE_NAMES + UNDERSCORE_NAMES + PLAIN_NAMES) if use_adv else PLAIN_NAMES
-    if rng.random() < 0.1:
+    if rng.random() < letterless:
         nt_pool = nt_pool + LETTERLESS
-    if rng.random() < 0.08:
+    if rng.random() < 0.8 * letterless:
         # spelled like the emitter's own lower-case identifiers (rejected by the capitalisation rule today)
         nt_pool = ['_nodes', '_states', '_x_0', '_a_0', '_states_1'] + nt_pool[:3]
     names = pick_names(rng, list(nt_pool), nn, avoid=RUST_RESERVED)
@@ -114,7 +116,7 @@ def gen_grammar(rng, adversarial=0.3, max_nts=6, max_terms=5, allow_empty_termin
     tenum_pool = [x for x in (['Tok', 'Token', 'Terminal', 'Node', 'State', 'Kind'] if use_adv else ['Tok', 'Token', 'Lex'])
                   if x not in names and x not in tnames]
     g.tenum = rng.choice(tenum_pool) if tenum_pool else 'TokEnum9'
-    types = PAYLOAD_TYPES[:5] if behaviour else PAYLOAD_TYPES
+    types = PAYLOAD_TYPES[:N_BEHAVIOUR_TYPES] if behaviour else PAYLOAD_TYPES
     g.terminals = [(t, rng.choice(types)) for t in tnames]
     g.start = rng.choice(names)
 
@@ -134,6 +136,9 @@ def gen_grammar(rng, adversarial=0.3, max_nts=6, max_terms=5, allow_empty_termin
             syms = [('T', rng.choice(tnames)) if rng.random() < 0.8 else s for s in syms]
         if lead is not None:
             syms[0] = lead
+        if n >= 3 and rng.random() < 0.06:
+            # every field skipped (the emitted type is unit-like although the production is long)
+            return ('named', [(None, syms[i]) for i in range(n)]) if rng.random() < 0.5 else ('tuple', [(False, syms[i]) for i in range(n)])
         if rng.random() < 0.5:
             fn = pick_names(rng, list(FIELD_NAMES), n)
             return ('named', [((None if rng.random() < 0.3 else fn[i]), syms[i]) for i in range(n)])
@@ -194,7 +199,7 @@ def add_name_relations(rng, g, behaviour=False):
     payload types, both in used fields), and a symbol whose name is the concatenation of two others, used
     in sibling variants with identical surroundings (`.. X N ..` next to `.. XN ..`)."""
     used = {n['name'] for n in g.nts} | {t for t, _ in g.terminals} | {g.tenum}
-    types = PAYLOAD_TYPES[:5] if behaviour else PAYLOAD_TYPES
+    types = PAYLOAD_TYPES[:N_BEHAVIOUR_TYPES] if behaviour else PAYLOAD_TYPES
     r = rng.random()
     if r < 0.3 and g.terminals:
         # a helper name of the generator together with numbered variants of it, contiguous or with gaps
@@ -307,7 +312,7 @@ def add_motifs(rng, g, behaviour=False):
     tn = [t for t, _ in g.terminals]
     for _ in range(rng.choice([1, 1, 2, 3])):
         m = rng.choice(['nullable_chain', 'nullable_chain', 'nullable_chain', 'unit_chain', 'opt_list', 'shared_prefix', 'shared_prefix', 'eps_alts',
-                        'prefix_loop', 'prefix_loop', 'late_merge', 'late_merge', 'wide_prefix', 'wide_prefix'])
+                        'prefix_loop', 'prefix_loop', 'late_merge', 'late_merge', 'wide_prefix', 'wide_prefix', 'dead_tail', 'unit_tail'])
         new = []
         if m == 'nullable_chain':
             k = rng.randint(2, 5)
@@ -405,6 +410,49 @@ def add_motifs(rng, g, behaviour=False):
             balts = [('B%d' % i, _wrap(rng, [('T', t)] + ([('T', rng.choice(tn))] if rng.random() < 0.5 else []))) for i, t in enumerate(firsts[1:])]
             new.append(_mk('enum' if len(balts) > 1 else 'struct', blk, balts if len(balts) > 1 else [(None, balts[0][1])], behaviour))
             head = ('N', w)
+        elif m == 'dead_tail':
+            # Top -> Head N1..Nk Dead [..]: nullable nonterminals with non-empty FIRST followed by a variant-less enum (empty
+            # FIRST, not nullable): FIRST(N1..Nk Dead) is FIRST(N1..Nk), and Head's closure items exist only with those lookaheads
+            while len(tn) < 3:
+                t = 'Tk%d' % len(tn)
+                g.terminals.append((t, 'u32'))
+                tn.append(t)
+            k = rng.randint(1, 3)
+            hd = _fresh_nt(g, 'Hd')
+            g.nts.append(_mk('struct', hd, [], behaviour))
+            dead = _fresh_nt(g, 'Todo')
+            g.nts.append(_mk('struct', dead, [], behaviour))
+            opts = []
+            for i in range(k):
+                o = _fresh_nt(g, 'Maybe')
+                g.nts.append(_mk('struct', o, [], behaviour))
+                opts.append(o)
+            top = _fresh_nt(g, 'Draft')
+            del g.nts[len(g.nts) - k - 2:]
+            new.append(_mk('struct', top, [(None, _wrap(rng, [('N', hd)] + [('N', o) for o in opts] + [('N', dead)] + ([('T', rng.choice(tn))] if rng.random() < 0.4 else [])))], behaviour))
+            new.append(_mk('enum', hd, [('H', _wrap(rng, [('T', rng.choice(tn))]))], behaviour))
+            for o in opts:
+                new.append(_mk('enum', o, [('Absent', ('empty',)), ('Present', _wrap(rng, [('T', rng.choice(tn))]))], behaviour))
+            new.append(_mk('enum', dead, [], behaviour))
+            head = ('N', top)
+        elif m == 'unit_tail':
+            # a production whose fields are all `_` (3..5 of them), placed after a used field of its parent
+            while len(tn) < 3:
+                t = 'Tk%d' % len(tn)
+                g.terminals.append((t, 'u32'))
+                tn.append(t)
+            u = _fresh_nt(g, 'Mark')
+            g.nts.append(_mk('struct', u, [], behaviour))
+            par = _fresh_nt(g, 'Pred')
+            del g.nts[-1]
+            n = rng.randint(3, 5)
+            syms = [('T', rng.choice(tn)) for _ in range(n)]
+            ufs = ('tuple', [(False, x) for x in syms]) if rng.random() < 0.5 else ('named', [(None, x) for x in syms])
+            first = ('T', syms[-1][1]) if rng.random() < 0.6 else ('T', rng.choice(tn))
+            pfs = ('named', [('col', first), ('test', ('N', u))]) if rng.random() < 0.5 else ('tuple', [(True, first), (True, ('N', u))])
+            new.append(_mk('struct', par, [(None, pfs)], behaviour))
+            new.append(_mk('struct', u, [(None, ufs)], behaviour))
+            head = ('N', par)
         elif m == 'late_merge':
             # E -> l d E | d d d | l E r [| v]: one production appears at two dot positions in a state, the state discovered
             # last still has successors, and lookaheads reach it only in the re-propagation phase (which state is last
@@ -1082,3 +1130,75 @@ def first_probe_variants(g, a, behaviour=False):
             h.start = 'Top9'
             out.append(h)
     return out
+
+
+# ---------------------------------------------------------------- large automata from small pieces
+
+def join_grammars(rng, parts):
+    """One grammar whose automaton is (roughly) the disjoint union of the parts' automata: every name of part i gets the
+    suffix `Q<i>`, and a new start symbol chooses a part by a fresh leading terminal.  The conflicts of the whole are the
+    conflicts of the parts; the sizes (states, transitions, rules, terminals) add up — small patterns in a big automaton."""
+    g = Grammar()
+    g.tenum = 'Tok'
+    g.start = 'Whole'
+    variants = []
+    for i, h in enumerate(parts):
+        suf = 'Q%d' % i
+        ren = lambda n: n + suf
+        for t, ty in h.terminals:
+            g.terminals.append((ren(t), ty))
+        lead = 'Lead%d' % i
+        g.terminals.append((lead, '()'))
+        for nt in h.nts:
+            vs = []
+            for vname, fs in nt['variants']:
+                if fs[0] == 'empty':
+                    vs.append((vname, fs))
+                else:
+                    fix = lambda fld: (fld + '_') if fld == 'terminal' else fld     # a reserved word as a field name is a syntax error
+                    vs.append((vname, (fs[0], [(fix(fld) if fs[0] == 'named' else fld, (k, ren(x))) for fld, (k, x) in fs[1]])))
+            g.nts.append(dict(name=ren(nt['name']), kind=nt['kind'], attrs=list(nt['attrs']), variants=vs))
+        variants.append(('P%d' % i, ('tuple', [(False, ('T', lead)), (True, ('N', ren(h.start)))])))
+    g.nts.insert(rng.randint(0, len(g.nts)), dict(name='Whole', kind='enum', attrs=[], variants=variants))
+    return g
+
+
+def conflict_motif(rng, behaviour=False):
+    """A small grammar with exactly one well-known kind of LALR(1) conflict, terminal names drawn at random
+    (which item of a conflict is met first depends on their order)."""
+    g = Grammar()
+    g.tenum = 'Tok'
+    tn = pick_names(rng, list(TERMINAL_NAMES), 4, avoid=RUST_RESERVED)
+    g.terminals = [(t, '()') for t in tn]
+    x, s_, y, z = tn
+    T = lambda t: ('T', t)
+    N = lambda n: ('N', n)
+    kind = rng.choice(['same_rule_sr', 'same_rule_sr', 'dangling', 'binop', 'rr', 'lr1_not_lalr'])
+    mk = lambda k, n, v: _mk(k, n, v, behaviour)
+    tup = lambda syms: ('tuple', [(True, q) for q in syms])
+    if kind == 'same_rule_sr':
+        # F -> Ty x s | x Ty s ; Ty -> x : after x, reduce Ty -> x . on x against the shift of the SAME rule's Ty -> . x
+        g.start = 'Fld'
+        g.nts = [mk('enum', 'Fld', [('A', tup([N('Ty'), T(x), T(s_)])), ('B', tup([T(x), N('Ty'), T(s_)]))]),
+                 mk('struct', 'Ty', [(None, tup([T(x)]))])]
+    elif kind == 'dangling':
+        g.start = 'St'
+        g.nts = [mk('enum', 'St', [('If', tup([T(x), N('St')])), ('IfElse', tup([T(x), N('St'), T(s_), N('St')])), ('Other', tup([T(y)]))])]
+    elif kind == 'binop':
+        g.start = 'Ex'
+        g.nts = [mk('enum', 'Ex', [('Bin', tup([N('Ex'), T(x), N('Ex')])), ('Atom', tup([T(y)]))])]
+    elif kind == 'rr':
+        g.start = 'Rr'
+        g.nts = [mk('enum', 'Rr', [('A', tup([N('Ra')])), ('B', tup([N('Rb')]))]),
+                 mk('struct', 'Ra', [(None, tup([T(x)]))]), mk('struct', 'Rb', [(None, tup([T(x)]))])]
+    else:
+        # S -> a A d | b B d | a B e | b A e ; A -> c ; B -> c   (LR(1), not LALR(1))
+        g.terminals.append(('Ee9', '()'))
+        e = 'Ee9'
+        g.start = 'Sl'
+        g.nts = [mk('enum', 'Sl', [('V1', tup([T(x), N('La'), T(z)])), ('V2', tup([T(s_), N('Lb'), T(z)])),
+                                   ('V3', tup([T(x), N('Lb'), T(e)])), ('V4', tup([T(s_), N('La'), T(e)]))]),
+                 mk('struct', 'La', [(None, tup([T(y)]))]), mk('struct', 'Lb', [(None, tup([T(y)]))])]
+    if rng.random() < 0.5:
+        g.nts.reverse()
+    return g
